@@ -74,6 +74,9 @@ type Scenario struct {
 	PostYield   bool           `json:"post_yield,omitempty"`
 	Pace        int            `json:"pace_ms,omitempty"`       // tcp: the server keeps its default timeouts (2 s for the first message of a connection, 8 s idle between messages) and every peer pauses this long before each frame after its first: long-lived connections, each message well inside the idle timeout
 	Anonymous   bool           `json:"anonymous,omitempty"`     // udp: the socket is of a kind whose peers have no address (unixgram, unbound clients): reads report none, replies cannot be routed - they are collected where the socket refuses them
+	MaxTCPQ     int            `json:"max_tcp_queries,omitempty"` // tcp: the server serves this many messages per connection (0: unlimited); what lies behind them in the stream is not read
+	OwnReader   bool           `json:"own_reader,omitempty"`      // tcp: a DecorateReader product that does the framing of stream messages itself
+	WriteFailAt int            `json:"write_fail_at,omitempty"`   // tcp, one peer: the n-th write on the server's side of its connection fails (nothing goes out); the server carries on - one reply is lost, none is wrong
 	Again       bool           `json:"again,omitempty"`         // udp: when the server has been shut down it is given a larger UDPSize and a new socket and started again; the peers then send queries padded beyond the old size (and within the new one): a second life of the same Server value
 	Async       bool           `json:"async,omitempty"`         // tcp: the handler answers every other accepted request from a task of its own, after it has returned (the server is reading - and rejecting - the messages behind it meanwhile); peers read what they are sent
 	FinWithData bool           `json:"fin_with_data,omitempty"` // tcp: peers end their sending right behind their last frame, and the read that returns the last octets returns io.EOF with them      // the return of every transport operation is a scheduling point of its own
@@ -223,7 +226,16 @@ func Gen(seed uint64, tier string) any {
 	if sc.Transport == "udp" && sc.Soak == "" && core.Chance(r, 10) {
 		sc.Anonymous, sc.UDPSock = true, false
 	}
-	if sc.Transport == "tcp" && sc.StallAt == 0 && sc.CutAt == 0 && !sc.FinWithData && core.Chance(r, 20) {
+	if sc.Transport == "tcp" {
+		sc.OwnReader = core.Chance(r, 15)
+		if sc.StallAt == 0 && sc.CutAt == 0 && core.Chance(r, 12) {
+			sc.MaxTCPQ = core.Pick(r, 1, 2, 3, 5)
+		}
+		if sc.Peers == 1 && !sc.Yield && core.Chance(r, 10) {
+			sc.WriteFailAt = 1 + r.IntN(4)
+		}
+	}
+	if sc.Transport == "tcp" && sc.StallAt == 0 && sc.CutAt == 0 && !sc.FinWithData && sc.WriteFailAt == 0 && sc.MaxTCPQ == 0 && core.Chance(r, 20) {
 		// (not with peers that end their sending early: the server closes such a connection as soon as it has
 		// read the end, and a reply still to be written by another task meets that close - a stream's writer
 		// belongs to its connection)
@@ -565,6 +577,11 @@ func (p *peerTask) RunEvent(time.Time) {
 	if a.sc.Transport == "tcp" {
 		sconn = a.n.Dial(a.l, true)
 		sconn.SetDeadline(time.Now().Add(time.Hour))
+		if a.sc.WriteFailAt > 0 && sconn.Peer != nil {
+			k.Lock()
+			sconn.Peer.FailWriteNth, sconn.Peer.FailWriteZero = a.sc.WriteFailAt, true
+			k.Unlock()
+		}
 	} else {
 		dconn = a.n.DialPacket(a.pc)
 	}
@@ -822,11 +839,19 @@ func runAdmLife(sc *Scenario, res *core.Result, k *kernel.K, n *simnet.Net, srv 
 		a.srv.MsgInvalidFunc = nil
 		res.Bump("cover.default_invalid_func")
 	}
-	if sc.Yield {
+	srv.MaxTCPQueries = -1
+	if sc.MaxTCPQ > 0 {
+		srv.MaxTCPQueries = sc.MaxTCPQ
+	}
+	srv.DecorateReader, srv.DecorateWriter = nil, nil
+	if sc.OwnReader && sc.Transport == "tcp" {
+		srv.DecorateReader = func(inner dns.Reader) dns.Reader { return &common.OwnReader{K: k, Reader: inner} }
+		res.Bump("cover.reader_that_supplants_the_servers")
+	} else if sc.Yield {
 		a.srv.DecorateReader = (&common.Decorator{K: k}).Decorate
-		if sc.RunSeed%3 == 0 {
-			a.srv.DecorateWriter = (&common.WDecorator{K: k}).Decorate
-		}
+	}
+	if sc.Yield && sc.RunSeed%3 == 0 {
+		a.srv.DecorateWriter = (&common.WDecorator{K: k}).Decorate
 	}
 	if sc.StallAt > 0 {
 		a.srv.ReadTimeout, a.srv.IdleTimeout = stallTimeout, shortIdle
@@ -924,11 +949,17 @@ func (a *adm) judge() {
 		for _, c := range a.n.Conns {
 			if c.Role == "cli" {
 				frames, _ := oracle.Frames(c.Sent())
-				if sc.StallAt > 0 {
-					// the server gives up on the connection when its read times out in
-					// (or before) the stalled frame: nothing from there on is a message
-					// it received
-					frames = frames[:min(sc.StallAt-1, len(frames))]
+				// a stream message the server received is one its reads took off the socket in full
+				if c.Peer != nil {
+					whole, end := 0, 0
+					for _, f := range frames {
+						end += 2 + len(f)
+						if end > c.Peer.ReadTotal {
+							break
+						}
+						whole++
+					}
+					frames = frames[:whole]
 				}
 				inbound = append(inbound, frames...)
 			}
@@ -1021,6 +1052,18 @@ func (a *adm) judge() {
 			wantHandled[h.ID] += 1
 		}
 	}
+	// a write that failed on the server's side of the connection (injected: nothing went out) costs one reply
+	lostReplies := 0
+	if sc.WriteFailAt > 0 && a.k.Stats["fault.writeerr"] > 0 {
+		lostReplies = 1
+	}
+	short := func(have, want int) bool {
+		if lostReplies > 0 && have == want-1 {
+			lostReplies--
+			return true
+		}
+		return false
+	}
 	// D1 conservation
 	res.Bump("oracle.D1_conservation")
 	gotInvalid := map[string]int{}
@@ -1068,7 +1111,7 @@ func (a *adm) judge() {
 			if a.ctxExpired {
 				continue
 			}
-			if got+count(1) != e.copies && got != e.copies {
+			if got+count(1) != e.copies && got != e.copies && !short(got+count(1), e.copies) {
 				res.Fail("D1", "either-disposition", "message id %d (one authority record) arrived %d time(s): handler ran %d time(s), %d FORMERR replies", id, e.copies, got, count(1))
 				return
 			}
@@ -1081,7 +1124,7 @@ func (a *adm) judge() {
 				res.Fail("D1", "handler-count", "message id %d passed the policy and decodes; it arrived %d time(s) but the handler ran %d time(s)", id, e.copies, got)
 				return
 			}
-			if len(reps) != e.copies && !(a.ctxExpired && len(reps) < e.copies) {
+			if len(reps) != e.copies && !(a.ctxExpired && len(reps) < e.copies) && !short(len(reps), e.copies) {
 				res.Fail("D1", "reply-count", "message id %d was handled %d time(s) but %d replies carry its id", id, got, len(reps))
 				return
 			}
@@ -1094,7 +1137,7 @@ func (a *adm) judge() {
 				res.Fail("D1", "handler-on-rejected", "message id %d must be refused (%s) but the handler ran %d time(s)", id, e.disp, got)
 				return
 			}
-			if (len(reps) != e.copies || count(rc) != e.copies) && !(a.ctxExpired && len(reps) < e.copies && count(rc) == len(reps)) {
+			if (len(reps) != e.copies || count(rc) != e.copies) && !(a.ctxExpired && len(reps) < e.copies && count(rc) == len(reps)) && !(count(rc) == len(reps) && short(len(reps), e.copies)) {
 				res.Fail("D3", "reject-reply", "message id %d (%s, %d copy/ies): expected %d reply/ies with rcode %d, got %d replies (%d with that rcode)", id, e.disp, e.copies, e.copies, rc, len(reps), count(rc))
 				return
 			}
